@@ -460,13 +460,22 @@ Section Gen.
   Qed.
 
   (* an instance of a nillable class has content *)
-  Lemma fits_content n cl o : fits n cl o = true -> cnil o = true -> has_content u o = true.
+  (* an instance of a nillable class has content, or is empty (and no attribute map captures xsi:nil) *)
+  Lemma fits_content n cl o : fits n cl o = true -> cnil o = true ->
+    has_content u o = true \/ (has_content u o = false /\ strict_empty u o = true
+                               /\ exists m, u_meta u cl = Some m /\ m_nillable m = true /\ find_any_attributes m XSI_NIL = None).
   Proof.
     destruct n; [discriminate|]. cbn [Fits.fits]. destruct o; try discriminate. intros H.
     apply andb_true_iff in H as [Hc H]. apply N.eqb_eq in Hc. subst c0. cbn [cnil]. unfold cls_nillable.
     destruct (u_meta u cl) as [m|] eqn:Em; [|discriminate]. peel H Hwild. peel H Hmap. peel H H2. peel H H1. peel H H0. peel H Hcont.
-    intros Hn. rewrite Hn in Hcont. exact Hcont.
+    intros Hn. rewrite Hn in Hcont. cbn [negb orb] in Hcont.
+    destruct (has_content u (VObj cl fields)) eqn:Ehc; [left; reflexivity|right]. cbn [orb] in Hcont.
+    apply andb_true_iff in Hcont as [Hse Hnf]. split; [reflexivity|]. split; [exact Hse|].
+    exists m. split; [reflexivity|]. split; [exact Hn|]. unfold nil_free in Hnf. destruct (find_any_attributes m XSI_NIL); [discriminate|reflexivity].
   Qed.
+
+  (* the xsi:nil mark stays on an element without content *)
+  Definition nil_kept (b : bool) (o : value) : bool := b && negb (has_content u o).
 
   (* the value of the attribute map *)
   Lemma fits_mapvar n cl fs m av : fits (S n) cl (VObj cl fs) = true -> u_meta u cl = Some m -> m_any_attributes m = [av] ->
@@ -1115,11 +1124,11 @@ Section Gen.
   Qed.
   (* an instance in a nillable field has content *)
   Lemma fits_item_content rec var k x :
-    v_types var = [TClass k] -> fits_item rec var x = true -> v_nillable var = true -> has_content u x = true.
+    v_types var = [TClass k] -> fits_item rec var x = true -> v_nillable var = true -> has_content u x = true \/ cnil x = true.
   Proof.
     intros Ht H Hn. unfold Fits.fits_item, vtype in H. rewrite Ht in H.
     destruct x as [| | |cl' fs'| | |]; try discriminate H.
-    apply andb_true_iff in H as [H _]. rewrite Hn in H. exact H.
+    apply andb_true_iff in H as [H _]. rewrite Hn in H. cbn [negb orb] in H. apply orb_true_iff in H. exact H.
   Qed.
 
   (* what derived_ok says *)
@@ -1976,10 +1985,17 @@ Section Gen.
     | _ => EData []
     end.
 
+  Definition nil_attr_k (b : bool) : list (XmlNs.qname * list atom) :=
+    if b then [(Bind.split_qname XSI_NIL, [AText TRUE_STR])] else [].
+  Definition add_nil_e (b : bool) (e : XmlNs.enode) : XmlNs.enode :=
+    match e with EElem q a k => EElem q (a ++ nil_attr_k b) k | EData d => EData d end.
+  Lemma add_nil_e_false e : add_nil_e false e = e.
+  Proof. destruct e; [reflexivity|]. cbn [add_nil_e nil_attr_k]. rewrite app_nil_r. reflexivity. Qed.
+
   Definition e_item (rec : option qname -> value -> XmlNs.enode) (var : xvar) (x : value) : XmlNs.enode :=
     match x with
     | VAny _ _ _ _ _ => e_any x
-    | VObj k' _ => add_xsi_e (xsi_for var k') (rec (Some (v_qname var)) x)
+    | VObj k' _ => add_nil_e (nil_kept (v_nillable var || cnil x) x) (add_xsi_e (xsi_for var k') (rec (Some (v_qname var)) x))
     | _ => e_prim var x
     end.
   Definition e_wrap (var : xvar) (items : list XmlNs.enode) : list XmlNs.enode :=
